@@ -566,6 +566,8 @@ def main(chk):
     tasks = []
     for nl, ql, nt in itertools.product((0, 1, 2), (0, 1, 2) if not T else (0, 1, 2, 4), (0, 1, 2)):
         tasks.append((o1_parse, (prog, nl, ql, nt, 2 if not T else 3)))
+    # ... and with query text in another client_encoding (bytes that are not UTF-8)
+    tasks.append((o1_parse, (prog, 1, 3, 0, 2, True)))
     bind_shapes = [(0, 0, 0, (), 0), (0, 1, 1, (1,), 1), (1, 2, 0, (-1,), 0), (0, 2, 2, (2, 0), 1), (1, 1, 1, (-1, 2), 0), (0, 0, 1, (0,), 2)]
     if T:
         bind_shapes += [(2, 3, 2, (4, -1, 1), 2), (0, 1, 0, (8,), 0)]
